@@ -468,13 +468,20 @@ pub fn long_lines(text: &str, seed: u64) -> String {
             || body.contains('"');
         out.push_str(body);
         if !skip {
+            // multi-byte characters all along the comment, so that every byte offset of the long
+            // line has one nearby
             let mut pad = String::from(" // ");
-            let target = 236 + rng.below(12) as usize;
+            let target = 236 + rng.below(40) as usize;
+            let specials = ['\u{2500}', '\u{e9}', '\u{65e5}', '\u{1f600}', '\u{3042}'];
             while body.len() + pad.len() < target {
-                pad.push('x');
+                if rng.chance(1, 3) {
+                    pad.push(specials[rng.below(5) as usize]);
+                } else {
+                    pad.push('x');
+                }
             }
             for _ in 0..(8 + rng.below(8)) {
-                pad.push(['\u{2500}', '\u{e9}', '\u{65e5}', 'y', '\u{1f600}'][rng.below(5) as usize]);
+                pad.push(specials[rng.below(5) as usize]);
             }
             out.push_str(&pad);
         }
